@@ -506,7 +506,7 @@ func runC02Growth(c *core.Ctx, report func(part, kind, msg string, attrs map[str
 // registered types. Every nesting depth 0 .. ceiling+3 for three ceilings; the responses (data, error paths) must be the same
 // under all four, and complete below the place where the first of them is cut.
 
-const c02DeepSDL = "type Query { top: N }\ntype N { name: String kids: [N] tags: [String] one: N }\n"
+const c02DeepSDL = "type Query { top: N }\ntype N { name: String kids: [N] tags: [String] one: N stamps: [Time] nums: [Int] flags: [Boolean!] ratios: [Float] wide: [Int64] }\n"
 
 type c02DeepRS struct {
 	name string
@@ -525,6 +525,8 @@ func (n *c02DeepRS) Resolve(field *ggql.Field, args map[string]interface{}) (int
 		return []interface{}{n.name + "1", n.name + "2"}, nil
 	case "one":
 		return n.kid, nil
+	case "stamps", "nums", "flags", "ratios", "wide":
+		return c02DeepTyped(field.Name), nil
 	}
 	return nil, fmt.Errorf("no field %s", field.Name)
 }
@@ -552,10 +554,30 @@ func (r *c02DeepAny) Nth(list interface{}, i int) (interface{}, error) {
 }
 
 type C02DeepN struct {
-	Name string
-	Kids []*C02DeepN
-	Tags []string
-	One  *C02DeepN
+	Name   string
+	Kids   []*C02DeepN
+	Tags   []string
+	One    *C02DeepN
+	Stamps []time.Time
+	Nums   []int
+	Flags  []bool
+	Ratios []float64
+	Wide   []int64
+}
+
+// c02DeepTyped: the leaf lists every backing holds as TYPED Go slices ([]time.Time, []int, []bool, []float64, []int64).
+func c02DeepTyped(field string) interface{} {
+	switch field {
+	case "stamps":
+		return []time.Time{time.Date(2019, 11, 11, 10, 9, 8, 0, time.UTC), time.Date(2020, 2, 29, 23, 59, 59, 0, time.UTC)}
+	case "nums":
+		return []int{1, 2, 3}
+	case "flags":
+		return []bool{true, false}
+	case "ratios":
+		return []float64{0.5, 1.5}
+	}
+	return []int64{1 << 40, -1}
 }
 type C02DeepQuery struct{ Top *C02DeepN }
 type C02DeepRoot struct{ Query *C02DeepQuery }
@@ -566,6 +588,9 @@ func c02DeepRoots() map[string]*ggql.Root {
 	a.kid, b.kid = b, a
 	roots["RS"] = ggql.NewRoot(a)
 	ma, mb := map[string]interface{}{"name": "a", "tags": []interface{}{"a1", "a2"}}, map[string]interface{}{"name": "b", "tags": []interface{}{"b1", "b2"}}
+	for _, f := range []string{"stamps", "nums", "flags", "ratios", "wide"} {
+		ma[f], mb[f] = c02DeepTyped(f), c02DeepTyped(f)
+	}
 	ma["kids"], mb["kids"] = []interface{}{mb}, []interface{}{ma}
 	ma["one"], mb["one"] = mb, ma
 	any := ggql.NewRoot(nil)
@@ -573,6 +598,10 @@ func c02DeepRoots() map[string]*ggql.Root {
 	roots["AS"] = any
 	for _, reg := range []bool{false, true} {
 		fa, fb := &C02DeepN{Name: "a", Tags: []string{"a1", "a2"}}, &C02DeepN{Name: "b", Tags: []string{"b1", "b2"}}
+		for _, n := range []*C02DeepN{fa, fb} {
+			n.Stamps, n.Nums, n.Flags = c02DeepTyped("stamps").([]time.Time), c02DeepTyped("nums").([]int), c02DeepTyped("flags").([]bool)
+			n.Ratios, n.Wide = c02DeepTyped("ratios").([]float64), c02DeepTyped("wide").([]int64)
+		}
 		fa.Kids, fb.Kids = []*C02DeepN{fb}, []*C02DeepN{fa}
 		fa.One, fb.One = fb, fa
 		r := ggql.NewRoot(&C02DeepRoot{Query: &C02DeepQuery{Top: fa}})
@@ -604,6 +633,7 @@ func runC02Depth(c *core.Ctx) {
 		{"lists-of-objects", "kids { ", "name tags"},
 		{"single-objects", "one { ", "name tags"},
 		{"alternating", "", "name tags"},
+		{"typed-leaf-lists", "kids { ", "name stamps nums flags ratios wide"},
 	}
 	for _, ceiling := range []int{7, 12, 100} {
 		maxD := ceiling + 3
